@@ -7,7 +7,9 @@ package l4socks
 //@ func (m *Socks4Matcher) Match(cx *layer4.Connection) (matched bool, err error)
 //@ requires wfm(cx)
 //@ safety C04
+//@ implements[C06] (m github.com/mholt/caddy-l4/layer4.ConnMatcher) Match
 
 //@ func (m *Socks5Matcher) Match(cx *layer4.Connection) (matched bool, err error)
 //@ requires wfm(cx)
 //@ safety C04
+//@ implements[C06] (m github.com/mholt/caddy-l4/layer4.ConnMatcher) Match
